@@ -1,16 +1,18 @@
 import OZ.Drv.C20Util
-import OZ.Model.RegRules
+import OZ.Model.RegRulesMon
 /-
 `rules ...` sub-driver of C20: the context rules of a smart account (the real
 `examples/multisig-smart-account/account` contract, whose constructor installs rule 0).
 Universe: context types 0..3, signers 0..17, policies 0..6 (policy 5's `uninstall` panics, which
 the account swallows; policy 6's `install` panics). Label: `now=<ledger> s0=<signers> p0=<policies>`.
+The universe constants, the oracle `installOk` and the printing helpers `showVu`, `showRule`,
+`liveRules` live in OZ/Model/RegRulesMon.lean (shared with the monitor core and its soundness proof).
 -/
 namespace OZ.Drv.C20.Rules
-open OZ.Drv OZ.Drv.C20 OZ.RegRules
+open OZ.Drv OZ.Drv.C20 OZ.RegRules OZ.RegRules.Mon
 
-def NC : Nat := 4
-def installOk (p : Nat) : Bool := p ≠ 6
+-- the dispatcher OZ/Drv/C20.lean names the oracle `Rules.installOk`
+export OZ.RegRules.Mon (installOk)
 
 structure M where
   s : State
@@ -23,13 +25,7 @@ def initM (ws : List String) : M :=
   | .ok s => { s := s }
   | .error _ => { s := s0 }
 
-def showVu (v : Option Nat) : String := match v with | some x => toString x | none => "none"
 def parseVu (s : String) : Option Nat := s.toNat?
-
-def showRule (r : Rule) : String :=
-  s!"{r.id}:{r.ctx}:{r.name}:{showVu r.validUntil}:{nats r.signers}:{nats r.policies}"
-
-def liveRules (s : State) : List Rule := (List.range (s.nextId + 1)).filterMap (getContextRule s)
 
 def showState (m : M) : String :=
   let s := m.s
@@ -72,127 +68,29 @@ def stepLine (m : M) (line : String) : M × String :=
       (m', s!"ok ret={ret} " ++ showState m')
     | .error _ => (m, "err ret=- " ++ showState m)
 
-/-! ### monitor: the plain list of rules, their ids, and the set of their fingerprints -/
-
-structure GR where
-  id : Nat
-  ctx : Nat
-  name : Nat
-  vu : Option Nat
-  sg : List Nat
-  ps : List Nat
-
-structure Mon where
-  rules : List GR
-  maxId : Nat            -- highest id ever handed out
-  now : Nat
+/-! ### monitor: parsing only; the checks are `OZ.RegRules.Mon.checkCore` (OZ/Model/RegRulesMon.lean),
+proved sound in OZ/Props/C20dMon.lean -/
 
 def minit (ws : List String) : Mon :=
   { rules := [⟨0, 0, 0, none, kvL ws "s0", dedupSort (kvL ws "p0")⟩], maxId := 0, now := (kvNat? ws "now").getD 100 }
 
-def find (g : Mon) (id : Nat) : Option GR := g.rules.find? (fun r => r.id == id)
-def put (g : Mon) (r : GR) : Mon := { g with rules := g.rules.map (fun x => if x.id == r.id then r else x) }
-/-- the fingerprint as a plain triple of sets -/
-def sameFp (c : Nat) (sg ps : List Nat) (r : GR) : Bool := r.ctx == c && sameSet r.sg sg && sameSet r.ps ps
-def past (g : Mon) (vu : Option Nat) : Bool := match vu with | some v => v < g.now | none => false
-def showGR (r : GR) : String := s!"{r.id}:{r.ctx}:{r.name}:{showVu r.vu}:{nats r.sg}:{nats r.ps}"
-
-def plain (g : Mon) (op : Op) : Except String Mon :=
-  match op with
-  | .add c n vu sg ps =>
-    if g.rules.length ≥ 15 then .error "limit.add_context_rule.rules"
-    else if !nodupB sg then .error "dup_signer"
-    else if past g vu then .error "past_valid_until"
-    else if sg.length > 15 then .error "limit.add_context_rule.signers"
-    else if ps.length > 5 then .error "limit.add_context_rule.policies"
-    else if sg = [] ∧ ps = [] then .error "empty"
-    else if g.rules.any (sameFp c sg ps) then .error "dup_fingerprint"
-    else if !ps.all installOk then .error "install_refused"
-    else .ok { g with rules := g.rules ++ [⟨g.maxId + 1, c, n, vu, sg, ps⟩], maxId := g.maxId + 1 }
-  | .rename id n => match find g id with
-    | some r => .ok (put g { r with name := n })
-    | none => .error "absent"
-  | .revalid id vu => match find g id with
-    | some r => if past g vu then .error "past_valid_until" else .ok (put g { r with vu := vu })
-    | none => .error "absent"
-  | .remove id => if (find g id).isSome then .ok { g with rules := g.rules.filter (fun r => r.id ≠ id) } else .error "absent"
-  | .addSigner id s => match find g id with
-    | none => .error "absent"
-    | some r =>
-      if r.sg.contains s then .error "dup"
-      else if r.sg.length + 1 > 15 then .error "limit.add_signer.signers"
-      else if g.rules.any (sameFp r.ctx (r.sg ++ [s]) r.ps) then .error "dup_fingerprint"
-      else .ok (put g { r with sg := r.sg ++ [s] })
-  | .removeSigner id s => match find g id with
-    | none => .error "absent"
-    | some r =>
-      if !r.sg.contains s then .error "absent"
-      else if r.sg.erase s = [] ∧ r.ps = [] then .error "empty"
-      else if g.rules.any (sameFp r.ctx (r.sg.erase s) r.ps) then .error "dup_fingerprint"
-      else .ok (put g { r with sg := r.sg.erase s })
-  | .addPolicy id p => match find g id with
-    | none => .error "absent"
-    | some r =>
-      if r.ps.contains p then .error "dup"
-      else if !installOk p then .error "install_refused"
-      else if r.ps.length + 1 > 5 then .error "limit.add_policy.policies"
-      else if g.rules.any (sameFp r.ctx r.sg (r.ps ++ [p])) then .error "dup_fingerprint"
-      else .ok (put g { r with ps := r.ps ++ [p] })
-  | .advance n => .ok { g with now := g.now + n }
-  | .removePolicy id p => match find g id with
-    | none => .error "absent"
-    | some r =>
-      if !r.ps.contains p then .error "absent"
-      else if r.sg = [] ∧ r.ps.erase p = [] then .error "empty"
-      else if g.rules.any (sameFp r.ctx r.sg (r.ps.erase p)) then .error "dup_fingerprint"
-      else .ok (put g { r with ps := r.ps.erase p })
+def parseObs (obs : String) : Obs :=
+  let ws := words obs
+  { ok := ws.head? == some "ok",
+    ret := (kvS ws "ret").toNat?,
+    n := kvN ws "n",
+    R := kvS ws "R",
+    T := kvS ws "T",
+    nfp := kvN ws "nfp",
+    fpd := kvN ws "fpd",
+    fpok := kvS ws "fpok" }
 
 def check (g : Mon) (opl obs : String) : Mon × Option String :=
-  let ws := words obs
-  let ok := ws.head? == some "ok"
   match parseOp (words opl) with
   | none => (g, some s!"site=rules.parse bad op {opl}")
-  | some op =>
-    let (g1, accept) : Mon × Option String :=
-      match plain g op, ok with
-      | .ok g', true => (g', none)
-      | .error _, false => (g, none)
-      | .ok _, false => (g, some (
-          let near := match op with
-            | .add _ _ _ sg ps => if g.rules.length = 14 then "limit.add_context_rule.rules"
-                                  else if sg.length = 15 then "limit.add_context_rule.signers"
-                                  else if ps.length = 5 then "limit.add_context_rule.policies" else "valid"
-            | .addSigner id _ => (match find g id with
-                | some r => if r.sg.length = 14 then "limit.add_signer.signers" else "valid"
-                | none => "valid")
-            | .addPolicy id _ => (match find g id with
-                | some r => if r.ps.length = 4 then "limit.add_policy.policies" else "valid"
-                | none => "valid")
-            | _ => "valid"
-          refusedSite "rules" near))
-      | .error why, true => (g, some (acceptedSite "rules" why))
-    -- ids are handed out once: the id returned by an accepted `add` is above every earlier one
-    let ret := (kvS ws "ret").toNat?
-    let (g2, idFail) : Mon × Option String := match op, ok with
-      | .add c n vu sg ps, true =>
-        (match ret with
-        | some id =>
-          if id ≤ g.maxId then (g1, some s!"site=rules.id_reused add_context_rule returned id {id}, not above the highest id handed out so far ({g.maxId})")
-          else if accept.isNone then
-            -- follow the implementation's id (the plain set only requires freshness)
-            ({ g1 with rules := g.rules ++ [⟨id, c, n, vu, sg, ps⟩], maxId := id }, none)
-          else (g1, none)
-        | none => (g1, some "site=rules.id_reused an accepted add_context_rule returned no id"))
-      | _, _ => (g1, none)
-    let rWant := sepBy ";" (g2.rules.map showGR)
-    let tWant := sepBy ";" ((List.range NC).map (fun c => s!"{c}:{nats ((g2.rules.filter (fun r => r.ctx == c)).map (·.id))}"))
-    let n := g2.rules.length
-    let fail := firstFail [accept, idFail,
-      chk (kvN ws "n" = n) s!"site=rules.count get_context_rules_count = {kvN ws "n"} but the plain rule set has {n}",
-      chk (kvS ws "R" = rWant) s!"site=rules.map get_context_rule over all ids = {kvS ws "R"} but the plain rule set is {rWant}",
-      chk (kvS ws "T" = tWant) s!"site=rules.enumerates_once get_context_rules per type = {kvS ws "T"} but the plain rule set gives {tWant}",
-      chk (kvN ws "nfp" = n ∧ kvN ws "fpd" = n ∧ kvS ws "fpok" = "1")
-        s!"site=rules.fingerprints stored fingerprints {kvN ws "nfp"}, distinct fingerprints of the live rules {kvN ws "fpd"}, all present {kvS ws "fpok"}: not the image of the {n} rules"]
-    (g2, fail)
+  | some op => checkCore g op (parseObs obs)
+
+/-- the monitor state type, as the dispatcher OZ/Drv/C20.lean names it -/
+abbrev MonT := OZ.RegRules.Mon.Mon
 
 end OZ.Drv.C20.Rules
